@@ -57,7 +57,7 @@ impl SubGridHeader {
         let row_size = (((wlon - elon) / dlon).abs() + 1.0).floor() as u64;
 
         let num_nodes = parser.get_u32(offset + GSCOUNT) as u64;
-        if num_nodes != (num_rows * row_size) {
+        if Some(num_nodes) != num_rows.checked_mul(row_size) {
             return Err(Error::Invalid(
                 "Number of nodes does not match the grid size".to_string(),
             ));
